@@ -574,6 +574,11 @@ func runC04(c *Ctx) error {
 			return err
 		}
 	}
+	for i := 0; i < c.N(3, 60); i++ {
+		if err := runDeviatingQuery(c, i); err != nil {
+			return err
+		}
+	}
 	for i := 0; i < c.N(240, 3000); i++ {
 		if err := runStreamAPI(c, i, i%3 == 0); err != nil {
 			return err
